@@ -57,7 +57,7 @@ def hexFns : List (String × String) := [("hx_post", "Post"), ("hx_patch", "Patc
 def typedFns : List (String × String × String) := [
   ("t_json", "Post", ""), ("t_geturl", "GetUrl", ""), ("t_posturl", "PostUrl", ""),
   ("t_deleteurl", "DeleteUrl", ""),
-  ("t_patchurl", "PatchUrl", "missing field `p`"), ("t_puturl", "PutUrl", "missing field `p`"),
+  ("t_patchurl", "PatchUrl", ""), ("t_puturl", "PutUrl", ""),
   ("t_cbor", "Post", ""), ("t_msgpack", "Post", ""), ("t_postcard", "Post", ""), ("t_rkyv", "Post", ""),
   ("t_serdelite", "Post", ""), ("t_patchjson", "Patch", ""), ("t_putcbor", "Put", ""),
   ("t_json_cbor", "Post", ""), ("t_geturl_rkyv", "GetUrl", ""), ("t_postcard_msgpack", "Post", ""),
@@ -308,9 +308,15 @@ def step (_ : Unit) (line : String) : Unit × String :=
           let items : List (Except SErr Bytes) := (rechunk 16 body).map .ok
           s!"{showItems items} ## ok"
         else if kind == "text" then
-          let items := textStreamItems (rechunk 16 body)
-          let good := items.all fun it => match it with | .ok _ => true | .error _ => false
-          s!"{showItems items} ## {if good then "ok" else "fail text-stream-split-scalar"}"
+          -- server half: re-chunked body through `decode_text_chunks`; the echoed items travel back as
+          -- chunks that are complete on their own (an error item as its `ser()` bytes)
+          let items := (textDecodeItems (rechunk 16 body)).map fun it =>
+            match it with
+            | .ok b => .ok b
+            | .error e => .error (de noCustomError (ser e))
+          let payload := items.flatMap fun it => match it with | .ok b => b | .error _ => []
+          let good := (items.all fun it => match it with | .ok _ => true | .error _ => false) && payload == body
+          s!"{showItems items} ## {if good then "ok" else "fail text-stream"}"
         else "bad-op"
       | none => "bad-op"
     | _ => "bad-op"
